@@ -28,6 +28,10 @@ class EncodingGap(Exception):
     """Something outside the modelled surface was reached: the check is inconclusive."""
 
 
+class NonFinite(ArithmeticError):
+    """An array operation produced inf/nan in numpy (division by zero ...): the model stops here."""
+
+
 class PathAbort(BaseException):
     """Raised inside a path to abandon it (infeasible, limit reached, assume(False))."""
 
@@ -1003,8 +1007,12 @@ def floor(x):
     kr = R(z3.ToReal(k))
     lo = kr <= x
     hi = x < kr + 1
-    c.axioms.append(lo.t)
-    c.axioms.append(hi.t)
+    if _isz(x.d):
+        # the comparisons are only meaningful where x is defined; do not let the axiom exclude den == 0
+        c.axioms.append(z3.Or(x.d == 0, z3.And(lo.t, hi.t)))
+    else:
+        c.axioms.append(lo.t)
+        c.axioms.append(hi.t)
     return SI(k)
 
 
